@@ -151,7 +151,7 @@ impl Hooks {
             val,
             chk: chk(id, 0, val),
             #[cfg(feature = "big_elem")]
-            pad: [0x5C5C_5C5C_5C5C_5C5C; 2],
+            pad: [0x5C5C_5C5C_5C5C_5C5C; 14],
         }
     }
 
@@ -253,10 +253,10 @@ pub struct Tracked {
     pub gen: u32,
     pub val: u32,
     pub chk: u32,
-    /// configuration `big_elem`: 32-byte elements, so that "larger than two words" paths of the
+    /// configuration `big_elem`: 128-byte elements, so that "larger than K bytes" paths of the
     /// crate are taken; carries no information
     #[cfg(feature = "big_elem")]
-    pub pad: [u64; 2],
+    pub pad: [u64; 14],
 }
 
 /// bytes of the identifying header (id, gen, val, chk)
